@@ -66,6 +66,7 @@ type govcStruct struct {
 	E  map[string]string `json:"e"`
 	F  *bool             `json:"f"`
 	G  float64           `json:"g"`
+	H  *govcStruct       `json:"h,string"`
 }
 
 type govcStruct10 struct {
@@ -169,6 +170,15 @@ func TestGovcBounded(t *testing.T) {
 	}
 	// invalid bytes are replaced by U+FFFD in place, which grows the window
 	docs = append(docs, `"`+string(bytes.Repeat([]byte{0xff}, 520))+`"`, `["`+string(bytes.Repeat([]byte{0xff}, 300))+`","`+string(bytes.Repeat([]byte("y"), 400))+`"]`)
+	// several simple escapes before a \u escape (the window length must follow every in-place removal), invalid bytes
+	// before escapes (the window grows), a long unknown key and a long string across the first window boundary
+	{
+		bs := string(rune(92))
+		docs = append(docs, `"a`+bs+`nb`+bs+`tc`+bs+`u00e9"`, `"q`+bs+`"`+bs+bs+bs+`/`+bs+`b`+bs+`f`+bs+`n`+bs+`r`+bs+`t`+bs+`ud83d`+bs+`ude00 end"`,
+			`{"a":"l1`+bs+`nl2`+bs+`nl3`+bs+`n","bc":"`+bs+`u003cp`+bs+`u003e"}`, "\"\xff\xff"+bs+"u00e9\"", "\"\xff\xff"+bs+"u00e9"+bs+"ud83d"+bs+"ude00\"", "[\"\xff\xff\xff"+bs+"u00e9\",1]",
+			"\"\xff\xff"+string(bytes.Repeat([]byte("a"), 497))+bs+"ud83d"+bs+"ude00zz\"", "\""+string(bytes.Repeat([]byte{0xff}, 32))+string(bytes.Repeat([]byte("a"), 476))+bs+"u00e9zz\"",
+			`{"`+string(bytes.Repeat([]byte("b"), 600))+`":1,"a":2}`, `{"a":1,"`+string(bytes.Repeat([]byte("k"), 505))+bs+`"x":{"q":[1,2]},"bc":"y"}`, `{"h":"{`+bs+`"a`+bs+`":1}"}`)
+	}
 	if thorough {
 		docs = append(docs, `{"e":{"k1":"v1","k2":"vé2"},"d":[10,20,30],"g":-1.25e2,"bc":"long string value with spaces"}`,
 			`[{"a":1},{"a":2,"bc":"\t"},{"f":false}]`, `"`+string(bytes.Repeat([]byte("x"), 600))+`"`, `[`+string(bytes.Repeat([]byte("1,"), 400))+`1]`)
